@@ -102,10 +102,10 @@ def build(cfg, values=None):
 def configs(tier, seed):
     out = []
     quick = tier == 'quick'
-    pairs = [(2, 2), (3, 2), (1, 3), (4, 1), (1, 5)] if quick else [(1, 1), (2, 2), (3, 2), (2, 3), (3, 3), (4, 3), (5, 4), (6, 5)]
+    pairs = [(2, 2), (3, 2), (1, 3), (4, 1), (1, 5)] if quick else [(1, 1), (2, 2), (3, 2), (2, 3), (3, 3), (4, 3), (5, 4), (6, 5), (8, 6), (10, 3), (3, 10), (12, 2), (2, 12)]
     for model in MODELS:
         for (m, n) in pairs:
-            if model == 'kpanel' and m * n > (6 if quick else 12):
+            if model == 'kpanel' and m * n > (6 if quick else 16):
                 continue
             out.append({'model': model, 'm': m, 'n': n, 'variant': 'full', 'group': 'k0:%s' % model, 's': 2})
         mm, nn = (2, 2) if quick else (3, 3)
@@ -122,6 +122,8 @@ def configs(tier, seed):
     if not quick:
         out.append({'model': 'kpanel', 'm': 2, 'n': 2, 'variant': 'full', 'group': 'k0:kpanel', 's': 3})
         out.append({'model': 'kpanel', 'm': 1, 'n': 2, 'variant': 'y1y2', 'group': 'k0y1y2:kpanel', 's': 3})
+        out.append({'model': 'kpanel', 'm': 3, 'n': 3, 'variant': 'full', 'group': 'k0:kpanel', 's': 4, 'timeout_ms': 300000})
+        out.append({'model': 'kpanel', 'm': 2, 'n': 2, 'variant': 'tiling', 'group': 'tiling:kpanel', 's': 3})
     out[0]['canary'] = True
     out[len(out) // 2]['canary'] = True
     out[-1]['canary'] = True
